@@ -1949,6 +1949,33 @@ pub fn strings(cx: &mut Ctx) {
             cx.out(c);
         }
     }
+    // all strings of length <= 5 over {a, b} x all needles of length 1..3 over {a, b}: occurrences that overlap, that touch,
+    // and that only come into being when another one is taken out ('aabb' without 'ab')
+    let mut ab: Vec<String> = vec![String::new()];
+    for len in 1..=5usize {
+        for code in 0..(1u32 << len) {
+            ab.push((0..len).map(|i| if code >> i & 1 == 1 { 'b' } else { 'a' }).collect());
+        }
+    }
+    for s in ab.iter() {
+        for n in ab.iter().filter(|n| !n.is_empty() && n.len() <= 3) {
+            if !cx.thorough && s.len() == 5 && cx.rng.below(3) != 0 {
+                continue;
+            }
+            for f in ["remove", "split", "rsplit", "contains"] {
+                let mut c = cx.case(mcall(id("s"), f, vec![id("n")]));
+                c.bind.insert("s".into(), V::Str(s.clone()));
+                c.bind.insert("n".into(), V::Str(n.clone()));
+                c.forms = forms(&["bound"]);
+                cx.out(c);
+            }
+            let mut c = cx.case(mcall(id("s"), "replace", vec![id("n"), lit(V::Str("b".into()))]));
+            c.bind.insert("s".into(), V::Str(s.clone()));
+            c.bind.insert("n".into(), V::Str(n.clone()));
+            c.forms = forms(&["bound"]);
+            cx.out(c);
+        }
+    }
     // laws evaluated by the implementation on longer random strings
     for _ in 0..cx.n {
         let s = rand_s(&mut cx.rng, 40);
@@ -2277,7 +2304,9 @@ pub fn time(cx: &mut Ctx) {
         c.extra = serde_json::json!({"law":"istrue"});
         cx.out(c);
     }
-    for (a, b) in [("kg", "parsec"), ("", "kg"), ("kg", "c"), ("furlong", "m/s"), ("c", "mph")] {
+    for (a, b) in [("kg", "parsec"), ("", "kg"), ("kg", "c"), ("furlong", "m/s"), ("c", "mph"),
+                   // an unknown unit is unknown also when it is asked for twice
+                   ("lightyear", "lightyear"), ("parsec", "parsec"), ("", ""), ("nosuchunit", "NoSuchUnit")] {
         let mut c = cx.case(call("uomConvert", vec![lit(V::Dbl(1.0)), lit(V::Str(a.into())), lit(V::Str(b.into()))]));
         c.forms = forms(&["bound"]);
         c.extra = serde_json::json!({"law":"reerr"});
